@@ -16,5 +16,7 @@ CONSTANTS
   MaxDigits <- Int64MaxDigits
   Extra <- BoundaryInts
   ExtraSeq <- NoExtraSeq
+  BufCap = 0
+  LosesIntegerDigits = FALSE
 INVARIANTS EmitInv
 CHECK_DEADLOCK FALSE
